@@ -24,7 +24,7 @@ import types
 from . import tlc
 from .common import BUILD, jdump
 
-ELEM = {"lint": "int", "lstr": "str", "llint": "lint"}
+ELEM = {"lint": "int", "lstr": "str", "llint": "lint", "lnum": "num"}
 
 
 class VerifBase(BaseException):
@@ -56,21 +56,24 @@ class Obj:
 
 # ---------------------------------------------------------------------------------------------------------
 class Cx:
-    """Concretisation of symbolic texts: symbol 1 -> A, symbol 2 -> B with A < B (single code units), so that
-    equality, prefix/suffix/infix, lexicographic order, length and the regex language are preserved."""
+    """Concretisation of symbolic texts: symbol 1 -> A, symbol 2 -> B, symbol 3 -> newline, with newline < A < B
+    (single code units), so that equality, prefix/suffix/infix, lexicographic order, length and the regex language
+    (incl. what '.' and '$' do with a newline under re.S / re.M) are preserved."""
 
     def __init__(self, name, A, B, regex_ok=True):
-        assert A < B and len(A) == 1 and len(B) == 1
+        assert A < B and len(A) == 1 and len(B) == 1 and A > A[:0] + (b"\n" if isinstance(A, bytes) else "\n")
         self.name = name
         self.A = A
         self.B = B
         self.isbytes = isinstance(A, bytes)
         self.texttype = bytes if self.isbytes else str
         self.regex_ok = regex_ok
+        self.NL = b"\n" if self.isbytes else "\n"
+        self.sym = {1: self.A, 2: self.B, 3: self.NL}
 
     def text(self, seq):
         e = b"" if self.isbytes else ""
-        return e.join(self.A if c == 1 else self.B for c in seq)
+        return e.join([self.sym[c] for c in seq])
 
     def key(self, name):
         if self.isbytes:
@@ -85,7 +88,7 @@ class Cx:
             if at["c"] == 0:
                 p = b"." if self.isbytes else "."
             else:
-                p = re.escape(self.A if at["c"] == 1 else self.B)
+                p = re.escape(self.sym[at["c"]])
             if at["star"]:
                 p = (b"(?:" + p + b")*") if self.isbytes else ("(?:" + p + ")*")
             out.append(p)
@@ -99,10 +102,10 @@ CX_ALL = [
     CX_ASCII,
     Cx("bytes", b"a", b"b"),
     Cx("nonascii", "é", "語"),
-    Cx("control", "\x01", "\x7f"),
+    Cx("control", "\x0b", "\x7f"),
     Cx("quotes", "'", "\\"),
-    Cx("dquote-nl", "\n", '"', regex_ok=False),  # '.' and '$' treat newline specially: no MatchesRegex under this one
-    Cx("bytes-high", b"\x00", b"\xff"),
+    Cx("dquote", '"', "|"),
+    Cx("bytes-high", b"\x10", b"\xff"),
     Cx("astral", " ", "\U0001f600"),
 ]
 
@@ -237,6 +240,10 @@ def build_value(v, env):
     k = v["k"]
     if k == "int":
         return v["i"]
+    if k == "bool":
+        return bool(v["bi"])
+    if k == "float":
+        return float(v["fi"])
     if k == "str":
         return env.cx.text(v["s"])
     if k == "list":
@@ -277,6 +284,7 @@ def arg0(e):
     return e.args[0]
 
 
+REFLAGS = {"": 0, "S": re.S, "M": re.M}
 PRED = {"even": (_even, "%s is odd"), "nonempty": (_nonempty, "%r is empty")}
 FUNCS = {"len": len, "sum": sum, "rev": rev}
 
@@ -286,6 +294,8 @@ def _types(env, tys):
 
     table = {
         "int": int,
+        "bool": bool,
+        "float": float,
         "text": env.cx.texttype,
         "list": list,
         "dict": dict,
@@ -323,7 +333,8 @@ def _build_matcher(e, env):
     if op == "ContainsAll":
         return M.ContainsAll(env.order([bv(r) for r in e["refs"]]))
     if op == "MatchesRegex":
-        return M.MatchesRegex(env.cx.regex(e["pat"]))
+        fl = REFLAGS[e["pat"].get("fl", "")]
+        return M.MatchesRegex(env.cx.regex(e["pat"]), fl) if fl or env.alt else M.MatchesRegex(env.cx.regex(e["pat"]))
     if op == "HasLength":
         return M.HasLength(e["n"])
     if op == "SameMembers":
@@ -405,6 +416,21 @@ def _build_matcher(e, env):
     if op in ("MatchesDict", "ContainsDict", "ContainedByDict"):
         return getattr(M, op)({env.cx.key(p[0]): bm(p[1]) for p in env.order(e["kms"])})
     raise tlc.MachineryError("unknown matcher op %r" % op)
+
+
+def regex_twin(e, k=1):
+    """The same expression with every MatchesRegex given the k-th next flag setting (same pattern text): a matcher
+    that must not influence `e`, however it is used before it."""
+    order = ["", "S", "M"]
+    if isinstance(e, dict):
+        if e.get("op") == "MatchesRegex":
+            p = dict(e["pat"])
+            p["fl"] = order[(order.index(p.get("fl", "")) + k) % 3]
+            return {"op": "MatchesRegex", "pat": p}
+        return {key: regex_twin(x, k) for key, x in e.items()}
+    if isinstance(e, list):
+        return [regex_twin(x, k) for x in e]
+    return e
 
 
 def order_free(e):
@@ -696,7 +722,11 @@ class Gen:
     # ---- values
     def text(self, n=None):
         n = self.r.randrange(0, 4) if n is None else n
-        return [self.r.choice((1, 2)) for _ in range(n)]
+        return [self.r.choice((1, 2, 1, 2, 3)) for _ in range(n)]
+
+    def num(self):
+        n = self.r.randrange(0, 3)
+        return self.r.choice([{"k": "int", "i": n}, {"k": "bool", "bi": n % 2}, {"k": "float", "fi": n}])
 
     def value(self, s):
         r = self.r
@@ -704,6 +734,8 @@ class Gen:
             return IntV(r.randrange(0, self.maxint + 1))
         if s == "str":
             return {"k": "str", "s": self.text()}
+        if s == "num":
+            return self.num()
         if s in ELEM:
             return {"k": "list", "l": [self.value(ELEM[s]) for _ in range(r.randrange(0, self.maxlen + 1))]}
         if s == "dict":
@@ -720,11 +752,11 @@ class Gen:
             return {"k": "call", "beh": "raise", "ty": r.choice(("VE", "KE", "BE")), "arg": r.randrange(0, 4)}
         if s == "path":
             st = r.choice(("missing", "file", "dir"))
-            names = sorted({tuple(self.text(r.randrange(1, 3))) for _ in range(r.randrange(0, 3))})
+            names = sorted({tuple(r.choice((1, 2)) for _ in range(r.randrange(1, 3))) for _ in range(r.randrange(0, 3))})
             return {
                 "k": "path",
                 "st": st,
-                "content": self.text() if st == "file" else [],
+                "content": [c for c in self.text() if c != 3] if st == "file" else [],
                 "names": [{"k": "str", "s": list(n)} for n in names] if st == "dir" else [],
             }
         raise AssertionError(s)
@@ -741,6 +773,13 @@ class Gen:
         if r.random() < 0.08:  # zero-arity combinators (an empty MismatchesAll / no mismatch at all), at any sort
             return r.choice([{"op": "MatchesAny", "ms": []}, {"op": "MatchesAll", "ms": [], "fo": r.random() < 0.5}])
         univ = [{"op": "Always"}, {"op": "Never"}]
+        if s == "num":
+            c = [
+                {"op": "IsInstance", "tys": r.sample(["int", "bool", "float", "text"], r.randrange(1, 3))},
+                {"op": "Is", "ref": r.choice([{"k": "int", "i": r.randrange(0, 3)}, {"k": "bool", "bi": r.randrange(0, 2)}])},
+                {"op": r.choice(("Equals", "NotEquals", "LessThan", "GreaterThan")), "ref": self.num()},
+            ]
+            return r.choice(c + univ[: r.randrange(0, 2)])
         if s in ("int", "str"):
             c = [
                 {"op": r.choice(("Equals", "NotEquals", "LessThan", "GreaterThan")), "ref": self.value(s)},
@@ -752,7 +791,7 @@ class Gen:
                 c += [
                     {"op": r.choice(("StartsWith", "EndsWith", "Contains")), "ref": {"k": "str", "s": self.text(r.randrange(0, 3))}},
                     {"op": "HasLength", "n": r.randrange(0, 4)},
-                    {"op": "MatchesRegex", "pat": {"atoms": [{"c": r.randrange(0, 3), "star": r.random() < 0.4} for _ in range(r.randrange(1, 4))], "anch": r.random() < 0.4}},
+                    {"op": "MatchesRegex", "pat": {"atoms": [{"c": r.randrange(0, 4), "star": r.random() < 0.4} for _ in range(r.randrange(1, 4))], "anch": r.random() < 0.4, "fl": r.choice(("", "", "S", "M"))}},
                     {"op": "ContainsAll", "refs": [{"k": "str", "s": self.text(r.randrange(0, 3))} for _ in range(r.randrange(0, 3))]},
                 ]
             return r.choice(c + univ[: r.randrange(0, 2)])
@@ -789,8 +828,8 @@ class Gen:
         if s == "path":
             c = [
                 {"op": r.choice(("PathExists", "DirExists", "FileExists"))},
-                {"op": "FileContains", "ref": {"k": "str", "s": self.text()}},
-                {"op": "DirContains", "refs": [{"k": "str", "s": self.text(r.randrange(1, 3))} for _ in range(r.randrange(0, 3))]},
+                {"op": "FileContains", "ref": {"k": "str", "s": [c for c in self.text() if c != 3]}},
+                {"op": "DirContains", "refs": [{"k": "str", "s": [r.choice((1, 2)) for _ in range(r.randrange(1, 3))]} for _ in range(r.randrange(0, 3))]},
             ]
             return r.choice(c + univ[: r.randrange(0, 2)])
         raise AssertionError(s)
